@@ -704,7 +704,11 @@ func (u *connectStreamingUnmarshaler) Unmarshal(message any) *Error {
 	if err := json.Unmarshal(env.Data.Bytes(), &end); err != nil {
 		return errorf(CodeInternal, "unmarshal end stream message: %w", err)
 	}
-	u.trailer = end.Trailer
+	u.trailer = make(http.Header, len(end.Trailer))
+	for key, values := range end.Trailer {
+		canonical := http.CanonicalHeaderKey(key)
+		u.trailer[canonical] = append(u.trailer[canonical], values...)
+	}
 	u.endStreamErr = (*Error)(end.Error)
 	if u.endStreamErr != nil && u.endStreamErr.code == 0 {
 		u.endStreamErr.code = CodeUnknown
